@@ -141,10 +141,15 @@ def build_pipes(pipes, log):
             else:
                 op = p.new_operator([rops[j] for j in par] or None)
             segs = []
+            last = None
             for (b, law, mem, read) in od["segs"]:
-                op.add_segment(Segment(baseline_cpu_seconds=float(b), cpu_scaling=law,
-                                       memory_gb=None if mem is None else float(mem),
-                                       storage_read_gb=float(read)))
+                if od.get("same_segment_object") and last is not None and last[0] == (b, law, mem, read):
+                    sobj = last[1]        # the caller adds one Segment object several times (a scan repeated three times)
+                else:
+                    sobj = Segment(baseline_cpu_seconds=float(b), cpu_scaling=law, memory_gb=None if mem is None else float(mem),
+                                   storage_read_gb=float(read))
+                op.add_segment(sobj)
+                last = ((b, law, mem, read), sobj)
                 segs.append((frac(b), law, None if mem is None else frac(mem), frac(read)))
             rops.append(op)
             mops.append(M.MOp((pi, oi), segs, [mops[j] for j in par]))
@@ -893,7 +898,8 @@ def run(scn, rng=None):
                     raise log.bad
             checks = [_results, lambda: check_results(res, t), _logbad, lambda: invariants(ex, acct, t)]
             checks += [lambda k=k: _compare_pools(ex, mex, obs, t, k) for k in ("lists", "free", "mem")]
-            checks += [lambda: _compare_states(built, t, "EX.states"), lambda: _check_counts(built, t)]
+            checks += [lambda: _compare_states(built, t, "EX.states"), lambda: _check_counts(built, t),
+                       lambda: _check_iteration_midrun(built, scn["pipes"], t)]
             for chk in checks:
                 try:
                     chk()
@@ -996,6 +1002,28 @@ def _compare_pools(ex, mex, obs, t, part=None):
                 tot += mc.mem
             if abs(p.get_consumed_ram_gb() - float(tot)) > TOL * max(sc, float(tot)):
                 raise Violation("C04.report.model", {"pool": p.pool_id, "reported": p.get_consumed_ram_gb(), "want": float(tot)}, t)
+
+
+def _check_iteration_midrun(built, pipes, t):
+    """C01, iteration clause, while the pipeline is being executed: every operator once, parents first, and the
+    parent lists are still the ones the pipeline was built with."""
+    for bi, (b, pd) in enumerate(zip(built, pipes)):
+        if (bi + t) % 3:
+            continue
+        idx = {id(o): i for i, o in enumerate(b.rops)}
+        for i, o in enumerate(b.rops):
+            if sorted(idx.get(id(q), -1) for q in o.parents) != sorted(pd["ops"][i].get("par", [])):
+                raise Violation("C01.parents_changed", {"pipeline": bi, "op": i, "parents_now": [idx.get(id(q)) for q in o.parents],
+                                                        "built_with": pd["ops"][i].get("par", [])}, t)
+        seq = [idx.get(id(o)) for o in b.p.values]
+        if sorted(x for x in seq if x is not None) != list(range(len(b.rops))) or len(seq) != len(b.rops):
+            raise Violation("C01.iteration.not_a_permutation", {"pipeline": bi, "visited": seq, "when": "mid-run"}, t)
+        pos = {o: k for k, o in enumerate(seq)}
+        for i, od in enumerate(pd["ops"]):
+            for q in od.get("par", []):
+                if pos[q] > pos[i]:
+                    raise Violation("C01.iteration.child_before_parent", {"pipeline": bi, "visited": seq, "child": i, "parent": q,
+                                                                          "when": "mid-run"}, t)
 
 
 def _compare_states(built, t, rule):
